@@ -1,14 +1,8 @@
 From Coq Require Import ZArith List Lia Bool.
+Require Import Actions.
 Import ListNotations.
 Open Scope Z_scope.
 
-Inductive storage := RAM | DISK | WORK | NONE.
-Inductive action :=
-| Forward (n0 n1 : Z) (wics wadj : bool) (st : storage)
-| Reverse (n1 n0 : Z) (clear : bool)
-| Copy (n : Z) (from to : storage)
-| Move (n : Z) (from to : storage)
-| EndForward | EndReverse.
 Inductive out := Act (a : action) | Stop | Raise.
 
 Section MS.
